@@ -352,6 +352,9 @@ func runC06(c *Ctx, w *World, r *Report) {
 			if badM == "" && !(hasDef && hasGet) {
 				badM = "version must be DefaultVer or the VersionedMessage's own version"
 			}
+			if badM == "" {
+				badM = defaultOnlyWhenUnversioned(w.FA(mf), mf, call.Common().Args[1], call.Block())
+			}
 		})
 		r.Check(badM == "", "R-VERSION", "pbcmpl.Marshal|version", w.Pos(mf.Pos()), badM, "ver = DefaultVer | msg.(VersionedMessage).GetVersion()")
 	}
@@ -743,8 +746,35 @@ func reportDeclInMarshal(w *World, r *Report, fns map[string]*ssa.Function, pk *
 		if badM == "" && !(hasDef && hasGet) {
 			badM = "version must be DefaultVer or the VersionedMessage's own version"
 		}
+		if badM == "" {
+			badM = defaultOnlyWhenUnversioned(w.FA(mf), mf, verArg, nh.Block())
+		}
 	}
 	r.Check(badM == "", "R-VERSION", "pbcmpl.Marshal|version", w.Pos(mf.Pos()), badM, "ver = DefaultVer | msg.(VersionedMessage).GetVersion()")
+}
+
+// defaultOnlyWhenUnversioned: the default version (a string constant) reaches the header only on paths where the
+// type assertion msg.(VersionedMessage) failed: a message that carries a version - the empty one included, length 0
+// is inside the property's range - keeps its own.
+func defaultOnlyWhenUnversioned(fa *FA, mf *ssa.Function, ver ssa.Value, blk *ssa.BasicBlock) string {
+	for _, lf := range fa.leavesOf(ver, blk, 0) {
+		cst, ok := lf.V.(*ssa.Const)
+		if !ok || cst.Value == nil || cst.Value.Kind() != constant.String {
+			continue
+		}
+		failed := false
+		for _, cd := range lf.Conds {
+			if ex, ok := cd.V.(*ssa.Extract); ok && ex.Index == 1 && !cd.Pol {
+				if ta, ok := ex.Tuple.(*ssa.TypeAssert); ok && ta.CommaOk && ta.X == ssa.Value(mf.Params[1]) {
+					failed = true
+				}
+			}
+		}
+		if !failed {
+			return "the default version is used on a path where the message IS a VersionedMessage (the type assertion did not fail there): a versioned message - one whose version is the empty string included - must be framed with its own version"
+		}
+	}
+	return ""
 }
 
 // reportAccept (R-ACCEPT): every size Marshal can record is accepted by Unmarshal.
